@@ -1,5 +1,8 @@
 import SLModel.Core.Idb
 import SLModel.Lemmas.Idb
+import SLModel.Lemmas.IdbQueue
+import SLModel.Lemmas.IdbProgram
+import SLModel.Lemmas.IdbRepaired
 /-!
 # C27 — browser persistence survives a reload at any moment
 
@@ -38,87 +41,10 @@ namespace SL.Idb
 
 /-! ## the stored image is the replay of the completion log -/
 
-theorem step_store_replay {σ σ' : St} {l : Label} (h : step σ l = some σ')
-    (inv : σ.store = replay σ.done) : σ'.store = replay σ'.done := by
-  cases l with
-  | sched p d => simp [step] at h; subst h; simpa using inv
-  | schedDel p => simp [step, doSchedDel] at h; subst h; simpa using inv
-  | flushTake => simp [step] at h; subst h; simpa using inv
-  | run t =>
-    simp only [step, doRun] at h
-    split at h
-    · simp at h; subst h; simpa using inv
-    · simp at h; subst h; simpa using inv
-    · simp at h; subst h; simpa using inv
-    · simp at h; subst h; simpa using inv
-    · simp at h
-  | succ t =>
-    simp only [step, doSucc] at h
-    split at h
-    · simp at h
-    · split at h
-      · simp at h
-      · simp at h; subst h; simpa using inv
-  | complete t =>
-    simp only [step, doComplete] at h
-    split at h
-    · simp at h
-    · split at h
-      · simp at h
-      · simp at h; subst h
-        simp [replay_append, inv]
-
-theorem exec_store_replay {σ σ' : St} {ls : List Label} (h : exec σ ls = some σ')
-    (inv : σ.store = replay σ.done) : σ'.store = replay σ'.done := by
-  induction ls generalizing σ with
-  | nil => simp [exec] at h; subst h; exact inv
-  | cons l ls ih =>
-    simp only [exec] at h
-    split at h
-    · simp at h
-    · rename_i σ1 h1
-      exact ih h (step_store_replay h1 inv)
-
 /-- the durable store is exactly what the completed transactions wrote, in completion order -/
 theorem store_eq_replay (ac : Bool) (ls : List Label) (σ : St)
     (h : exec { awaitComplete := ac } ls = some σ) : σ.store = replay σ.done :=
   exec_store_replay h rfl
-
-theorem pstep_store_replay {s s' : PSt} {l : PLabel} (h : pstep s l = some s')
-    (inv : s.q.store = replay s.q.done) : s'.q.store = replay s'.q.done := by
-  cases l with
-  | prog =>
-    simp only [pstep, progStep] at h
-    split at h
-    · split at h
-      · simp at h; subst h; exact inv
-      · simp at h
-    · split at h
-      · simp at h; subst h; simpa using inv
-      · simp at h; subst h; exact inv
-      · split at h
-        · simp at h
-        · simp at h; subst h; exact inv
-  | adv l =>
-    simp only [pstep] at h
-    split at h
-    · split at h
-      · rename_i q' hq
-        simp at h; subst h
-        exact step_store_replay hq inv
-      · simp at h
-    · simp at h
-
-theorem pexec_store_replay {s s' : PSt} {ls : List PLabel} (h : pexec s ls = some s')
-    (inv : s.q.store = replay s.q.done) : s'.q.store = replay s'.q.done := by
-  induction ls generalizing s with
-  | nil => simp [pexec] at h; subst h; exact inv
-  | cons l ls ih =>
-    simp only [pexec] at h
-    split at h
-    · simp at h
-    · rename_i s1 h1
-      exact ih h (pstep_store_replay h1 inv)
 
 /-! ## the ordering monitor: `ordered` ⇒ no prefix of the completion log is a partial image -/
 
@@ -128,41 +54,6 @@ def WfCommits (cs : List Commit) : Prop :=
 
 instance (cs : List Commit) : Decidable (WfCommits cs) := by
   unfold WfCommits; infer_instance
-
-theorem filesPresent_congr {s s' : List (Path × Ver)} {fs : List (Path × Data)}
-    (h : ∀ f ∈ fs, aget f.1 s' = aget f.1 s) : filesPresent s' fs = filesPresent s fs := by
-  unfold filesPresent
-  apply all_congr_mem
-  intro f hf
-  rw [h f hf]
-
-/-- `recover ≠ broken`, spelled out -/
-def Openable (cs : List Commit) (s : List (Path × Ver)) : Prop :=
-  ∀ v, aget manifestPath s = some v →
-    ∃ k, findManifest v.data cs = some k ∧ (cs.take (k + 1)).all (fun c => filesPresent s c.files) = true
-
-theorem openable_iff (cs : List Commit) (s : List (Path × Ver)) :
-    Openable cs s ↔ recover cs s ≠ Rec.broken := by
-  unfold Openable recover
-  cases hm : aget manifestPath s with
-  | none => simp
-  | some v =>
-    cases hk : findManifest v.data cs with
-    | none => simp [hk]
-    | some k =>
-      by_cases hall : (cs.take (k + 1)).all (fun c => filesPresent s c.files) = true
-      · simp only [hk, hall, if_true]
-        constructor
-        · intro _; simp
-        · intro _ v' hv'; cases hv'; exact ⟨k, hk, hall⟩
-      · simp only [hk, hall]
-        constructor
-        · intro h
-          obtain ⟨k', hk', hall'⟩ := h v rfl
-          rw [hk] at hk'
-          cases hk'
-          exact absurd hall' hall
-        · intro h; simp at h
 
 theorem openable_step (cs : List Commit) (hwf : WfCommits cs) (s : List (Path × Ver)) (o : Op)
     (hs : Openable cs s) (hok : orderedFrom cs s [o] = true) : Openable cs (applyOp s o) := by
@@ -251,9 +142,6 @@ theorem orderedFrom_prefix_openable (cs : List Commit) (hwf : WfCommits cs) (os 
       simp only [List.take_succ_cons, List.foldl_cons]
       exact ih _ (openable_step cs hwf s o hs hok.1) hok.2 n
 
-theorem openable_nil (cs : List Commit) : Openable cs [] := by
-  intro v hv; simp at hv
-
 /-- every prefix of an `ordered` completion log is an image that reopens (never a partial
 commit) -/
 theorem ordered_prefix_recoverable (cs : List Commit) (hwf : WfCommits cs) (done : List Op)
@@ -325,5 +213,97 @@ example :
 example : ordered witnessCommits [Op.put 0 ⟨[0], 0⟩, Op.put 0 ⟨[1], 2⟩] = false := by decide
 
 example : WfCommits witnessCommits := by decide
+
+/-! ## what `flush` really guarantees -/
+
+/-- **resolved_succeeded.**  For every interleaving (also with `schedule_delete`): when a
+receiver has resolved with `Ok`, a snapshot of its path *at least as new* as the one handed to
+that `schedule` call is safe — its transaction completed, or (in the code as it exists,
+`awaitComplete = false`) its put request succeeded.  Coalescing never loses the newest
+snapshot; but "resolved" does not mean "durable". -/
+theorem resolved_succeeded (ac : Bool) (ls : List Label) (σ : St)
+    (h : exec { awaitComplete := ac } ls = some σ) (w : Nat) (hw : w ∈ σ.resolved) :
+    ∃ p, pathOf σ w = some p ∧ Safe σ p w :=
+  (qinv_exec (qinv_init ac) h).i4 w hw
+
+/-- … and when waiters are notified on transaction completion, resolved does mean durable -/
+theorem resolved_durable_await_complete (ls : List Label) (σ : St)
+    (h : exec { awaitComplete := true } ls = some σ) (w : Nat) (hw : w ∈ σ.resolved) :
+    ∃ p v, pathOf σ w = some p ∧ Op.put p v ∈ σ.done ∧ w ≤ v.seq := by
+  obtain ⟨p, hp, s, hws, hs⟩ := resolved_succeeded true ls σ h w hw
+  have hac : σ.awaitComplete = true := exec_awaitComplete h
+  rcases hs with ⟨v, hv, hvs⟩ | ⟨hf, _⟩
+  · exact ⟨p, v, hp, hv, by omega⟩
+  · rw [hac] at hf; cases hf
+
+/-- a `flush()` that finished with `Ok` covers every receiver it took -/
+theorem flush_ok_succeeded (ac : Bool) (ls : List Label) (σ : St)
+    (h : exec { awaitComplete := ac } ls = some σ) (f : Nat) (rs : List Nat)
+    (hrs : σ.flushes[f]? = some rs) (hok : flushOk σ f = true) :
+    ∀ r ∈ rs, ∃ p, pathOf σ r = some p ∧ Safe σ p r := by
+  intro r hr
+  unfold flushOk at hok
+  rw [hrs] at hok
+  simp only [List.all_eq_true, List.contains_iff_mem] at hok
+  exact resolved_succeeded ac ls σ h r (hok r hr)
+
+/-- non-vacuity: two snapshots of one path coalesce; the receiver of the first resolves (and
+the flush that took it finishes) when the request of the first succeeds; the second snapshot is
+written afterwards, in its own transaction -/
+example :
+    (exec {} [.sched 5 [1], .flushTake, .run 0, .sched 5 [2], .succ 0, .run 0, .complete 0]).map
+      (fun σ => (σ.resolved, σ.store.map (fun pv => (pv.1, pv.2.data)), flushOk σ 0)) =
+    some ([0], [(5, [1])], true) := by decide
+
+/-! ## the repaired protocol -/
+
+/-- **close_any_time for the repaired protocol, part 1: never a partial commit.**  Repaired =
+`blockRepaired` (the segment files are awaited before the manifest that names them is
+scheduled) + `awaitComplete` (waiters are notified when the transaction completes).  For every
+interleaving of program, tasks and browser events and every close point, the stored image
+reopens. -/
+theorem close_never_partial_repaired (cs : List Commit) (wf : WfRep cs) (ls : List PLabel) (s : PSt)
+    (h : pexec (initP cs true) ls = some s) : recover cs s.q.store ≠ Rec.broken := by
+  rw [← openable_iff]
+  exact (pinv_pexec wf (pinv_init cs) h).op
+
+/-- **… part 2: the recovered commit had started.** -/
+theorem recovered_started_repaired (cs : List Commit) (wf : WfRep cs) (ls : List PLabel) (s : PSt)
+    (h : pexec (initP cs true) ls = some s) (k : Nat) (hk : recover cs s.q.store = Rec.commit k) :
+    k < s.started := by
+  have inv := pinv_pexec wf (pinv_init cs) h
+  unfold recover at hk
+  cases hm : aget manifestPath s.q.store with
+  | none => simp [hm] at hk
+  | some v =>
+    simp only [hm] at hk
+    cases hf : findManifest v.data cs with
+    | none => simp [hf] at hk
+    | some k0 =>
+      simp only [hf] at hk
+      split at hk
+      · cases hk
+        rw [inv.sr] at hm
+        have hmem := replay_get_mem _ _ _ hm
+        obtain ⟨k1, c1, hk1, hc1, hm1⟩ := inv.man _ (inv.g.g3 _ _ hmem)
+        obtain ⟨k2, hk2, hf2⟩ := findManifest_le v.data cs k1 c1 hc1 hm1
+        rw [hf] at hf2
+        cases hf2
+        have : filesDone s ≤ s.started := by unfold filesDone; split <;> omega
+        omega
+      · cases hk
+
+/-- non-vacuity of the repaired theorems: a complete run of the repaired protocol on the
+witness commits ends with commit 1 recovered and both blocks resolved -/
+example :
+    (pexec (initP witnessCommits true)
+      [.prog, .prog, .prog, .prog, .prog, .adv (.run 0), .adv (.succ 0), .adv (.complete 0), .adv (.run 0), .prog,
+       .prog, .prog, .prog, .adv (.run 1), .adv (.succ 1), .adv (.complete 1), .adv (.run 1), .prog,
+       .prog, .prog, .adv (.run 2), .adv (.succ 2), .adv (.complete 2), .adv (.run 2), .prog]).map
+      (fun s => (recover witnessCommits s.q.store, s.started, s.resolvedBlocks)) =
+    some (Rec.commit 1, 2, 2) := by decide
+
+example : WfRep witnessCommits := by
+  refine ⟨by decide, by decide, by decide⟩
 
 end SL.Idb
